@@ -27,6 +27,40 @@ def oracle(case, impl):
             return ("violation", "duplicate pid in sequential allocation")
         if any(p[2] != int(t[3]) for p in pids):
             return ("violation", "pid does not carry the creation in force")
+        # numbers count up to the maximum and restart at 1; the serial (as the 32-bit field) is the starting serial plus
+        # the number of restarts so far — otherwise a later cycle re-issues the identifiers of an earlier one.  The
+        # allocation that hits the maximum itself may carry the old or the new serial.
+        i0, s0 = int(t[1]), int(t[2])
+        wraps, want_id = 0, i0
+        for k, (pid_id, pid_serial, _c) in enumerate(pids):
+            if pid_id != want_id:
+                return ("violation", "allocation %d has number %d, expected %d" % (k, pid_id, want_id))
+            at_max = want_id >= MAXP
+            ok_serials = {(s0 + wraps) % 2**32} | ({(s0 + wraps + 1) % 2**32} if at_max else set())
+            if pid_serial not in ok_serials:
+                return ("violation", "allocation %d (number %d) carries serial %d; with %d restarts since serial %d it must carry %s"
+                        % (k, pid_id, pid_serial, wraps, s0, sorted(ok_serials)))
+            if at_max:
+                wraps, want_id = wraps + 1, 1
+            else:
+                want_id += 1
+    if t[0] == "mix":
+        # allocations with set_creation calls in between (also with the value already in force): every identifier is new,
+        # carries the creation in force, and the numbering goes on
+        pids = [tuple(int(x) for x in p.split(".")) for p in impl.split()]
+        if len(set(pids)) != len(pids):
+            return ("violation", "an identifier is handed out twice around a set_creation call")
+        cr, k, want_id = int(t[3]), 0, int(t[1])
+        for op in t[4:]:
+            if op.startswith("c"):
+                cr = int(op[1:])
+                continue
+            if pids[k][2] != cr:
+                return ("violation", "allocation %d does not carry the creation in force (%d)" % (k, cr))
+            if pids[k][0] != want_id:
+                return ("violation", "allocation %d has number %d, expected %d: set_creation disturbed the numbering" % (k, pids[k][0], want_id))
+            want_id = 1 if want_id >= MAXP else want_id + 1
+            k += 1
     if t[0] == "ref":
         refs = impl.split()
         if len(set(refs)) != len(refs):
@@ -64,6 +98,16 @@ def run(ctx):
         cases.append("par %d %d %d %d %d" % (rng.choice([2, 3, 4, 8, 16]), rng.choice([2000, 10000]),
                                                rng.choice([1, MAXP - rng.randrange(1, 5000)]), rng.choice([0, 2**32 - 1]), rng.randrange(100)))
     cases += ["ref 1", "ref 5", "ref 40", "refpar 8 20000", "refpar 2 50000", "refpar 16 3000"]
+    for _ in range(ctx.budget(60, 1500)):
+        cr = rng.choice([0, 1, 3, 2**32 - 1])
+        ops, cur = [], cr
+        for _o in range(rng.choice([3, 6, 12, 30])):
+            if rng.random() < 0.25:
+                cur = rng.choice([cur, cur, (cur + 1) % 2**32, rng.randrange(2**32)])
+                ops.append("c%d" % cur)
+            else:
+                ops.append("a")
+        cases.append("mix %d %d %d %s" % (rng.choice([1, 5, MAXP - 2, MAXP]), rng.choice([0, 7, 2**32 - 1, 2**32]), cr, " ".join(ops)))
 
     def nontrivial(c, impl):
         t = c.split()
